@@ -362,13 +362,18 @@ pub fn check_case(ctx: &mut Ctx, ps: &mut Parsers, case: &Case) {
     }
 }
 
-const MULTIBYTE: &[&str] = &["é", "€", "😀", "e\u{301}"];
+/// letters of 2, 3 and 4 bytes, a combining sequence, multi-byte white space (2 and 3 bytes), multi-byte punctuation,
+/// a zero-width character
+const MULTIBYTE: &[&str] = &["é", "€", "😀", "e\u{301}", "\u{a0}", "\u{3000}", "¿", "\u{200b}"];
 
 /// insert each multi-byte char at every token boundary of `seed` in turn
 pub fn multibyte_sweep(seed: &str, mut f: impl FnMut(String)) {
-    let (_, toks) = p::verif_tokens(seed);
-    let mut cuts: Vec<usize> = toks.iter().map(|t| t.1).collect();
+    let (body, toks) = p::verif_tokens(seed);
+    // inside a front matter (not tokenised): after every line break, blank and colon
+    let mut cuts: Vec<usize> = seed[..body.min(seed.len())].char_indices().filter(|(_, c)| matches!(c, '\n' | ' ' | ':')).map(|(i, c)| i + c.len_utf8()).collect();
+    cuts.extend(toks.iter().map(|t| t.1));
     cuts.push(seed.len());
+    cuts.sort_unstable();
     cuts.dedup();
     for c in cuts {
         if !seed.is_char_boundary(c) {
@@ -429,6 +434,45 @@ pub fn run(ctx: &mut Ctx) {
                 ctx.count("inputs_fence_family");
             }
             k += 1;
+        }
+    }
+    // front matters whose standard keys carry refused or conflicting values (labels point INTO the YAML text), in
+    // every order of up to 4 lines, LF and CRLF, with multi-byte text of each width in the lines around them
+    {
+        const FM_LINES: &[&str] = &[
+            "title: Café", "note: é", "x: 😀😀", "k: 漢字 ok", "prep time: 1 h", "cook time: 5 min", "time: 2 h", "servings: a|b", "locale: zz_",
+            "tags: [a, a]", "author: <x>", "time: x", "\"servings\": 2|2", "source: {a: 1}",
+        ];
+        let maxlen = if ctx.is_thorough() { 4 } else { 3 };
+        let total = alphabet::count_upto(FM_LINES.len(), maxlen);
+        let mut idx = ctx.shard as u64;
+        let mut lines = String::new();
+        while idx < total {
+            // decode idx into a sequence of lines
+            let n = FM_LINES.len() as u64;
+            let (mut rem, mut len) = (idx, 0u32);
+            while rem >= n.pow(len) {
+                rem -= n.pow(len);
+                len += 1;
+            }
+            lines.clear();
+            let mut ds = vec![0usize; len as usize];
+            for i in (0..len as usize).rev() {
+                ds[i] = (rem % n) as usize;
+                rem /= n;
+            }
+            for d in ds {
+                lines.push_str(FM_LINES[d]);
+                lines.push('\n');
+            }
+            let doc = format!("---\n{lines}---\n\nA step with @a{{1}}.\n");
+            for text in [doc.replace('\n', "\r\n"), doc] {
+                for (e, c) in [cfgs[1], cfgs[0]] {
+                    check_case(ctx, &mut ps, &Case::new("front_matter_diagnostics", text.as_str(), e, c));
+                }
+            }
+            ctx.count("inputs_front_matter_diagnostics");
+            idx += ctx.nshards as u64;
         }
     }
     for seed in &seeds {
